@@ -819,4 +819,54 @@ theorem castMask_tileMask (segs : List Nat) (t : SegType) (R C tr tc : Nat) (hR 
     obtain ⟨p0, rfl⟩ := List.length_eq_one_iff.mp hnp
     exact castMask_tiles_fltStack segs t R C tr tc hR hC htr htc p0 (hsz _ (by simp [Mask.planeSizes])) _ hcm
 
+/-! ## the two orders give the same constructor -/
+
+theorem tileMask_planeSizes (R C tr tc : Nat) (m : Mask) : ∀ sz ∈ (tileMask R C tr tc m).planeSizes, sz = tr * tc := by
+  intro sz hsz
+  cases m <;> simp only [tileMask, Mask.planeSizes] at hsz <;>
+    (obtain ⟨tile, ht, rfl⟩ := List.mem_map.mp hsz; exact tile_length _ R C tr tc _ tile ht)
+
+/-- **`buildTiled` (cut, then cast) is the constructor in the source's order (cast, then cut)** -- the same object or the
+    same refusal, for every matrix and tile size -/
+theorem buildTiled_eq_src (codec : Option Codec) (R C tr tc : Nat) (hR : 1 ≤ R) (hC : 1 ≤ C) (htr : 1 ≤ tr) (htc : 1 ≤ tc)
+    (t : SegType) (segs : List Nat) (mfv : Nat) (omt : Bool) (m : Mask) :
+    buildTiled codec R C tr tc t segs mfv omt m = buildTiledSrc codec R C tr tc t segs mfv omt m := by
+  unfold buildTiled buildTiledSrc
+  by_cases hnp : m.numPlanes ≠ 1
+  · rw [if_pos hnp, if_pos hnp]
+  rw [if_neg hnp, if_neg hnp]
+  have hnp1 : m.numPlanes = 1 := by simpa using hnp
+  by_cases hsz : (m.planeSizes.any (· != R * C)) = true
+  · rw [if_pos hsz, if_pos hsz]
+  rw [if_neg hsz, if_neg hsz]
+  have hsz' : ∀ sz ∈ m.planeSizes, sz = R * C := by
+    intro sz hm
+    by_contra hc
+    exact hsz (List.any_eq_true.mpr ⟨sz, hm, by simpa using hc⟩)
+  unfold build
+  cases hca : checkArgs codec t segs mfv with
+  | error e => rfl
+  | ok bits =>
+    simp only
+    have h1 : ¬ ((tileMask R C tr tc m).numPlanes ≠ (List.range (tileMask R C tr tc m).numPlanes).length) := by simp
+    have h2 : ¬ (((tileMask R C tr tc m).planeSizes.any fun x => x != tr * tc) = true) := by
+      intro hc
+      obtain ⟨sz, hm, hne⟩ := List.any_eq_true.mp hc
+      rw [tileMask_planeSizes R C tr tc m sz hm] at hne
+      simp at hne
+    cases hcm : castMask segs t m with
+    | error e =>
+      rw [castMask_tileMask_error segs t R C tr tc hR hC htr htc m hnp1 hsz' e hcm]
+    | ok r =>
+      obtain ⟨arr, ov⟩ := r
+      rw [castMask_tileMask segs t R C tr tc hR hC htr htc m hnp1 hsz' arr ov hcm]
+      simp only [h1, h2, ↓reduceIte]
+      rw [tileMask_numPlanes, tileMask_numPlanes]
+      simp only [Bool.false_eq_true, ↓reduceIte]
+      cases storedFrames (tileMask R C tr tc arr) segs t mfv omt (List.range (tilesAlong R tr * tilesAlong C tc)) with
+      | error e => rfl
+      | ok frames =>
+        simp only
+        cases encodePixelData codec tr tc bits (frames.map (·.px)) <;> rfl
+
 end HdVerif.SegEncodeLemmas
